@@ -51,6 +51,16 @@ class Bada3AircraftParameters(BaseAircraftParameters):
     cas_cruise_hi: float | None = None
     cas_cruise_mach: float | None = None
 
+    def __getitem__(self, key: str):
+        """
+        Allows parameters to be looked up by name (``params['c_tc4']``), which
+        is how the engine models access them.
+        """
+        try:
+            return getattr(self, key)
+        except AttributeError:
+            raise KeyError(key) from None
+
     def assign_parameters_fromdict(self, parameters: dict):
         """
         Assigns the parameters from a dictionary.
